@@ -132,6 +132,7 @@ type scenario struct {
 	derefs  int         // further concurrent Dereference calls
 	singles []string    // plus concurrent single Deliver calls to these URLs
 	ctxDone bool        // the caller's context is already cancelled when the batch is handed over
+	big     bool        // a batch of five or more recipients: explored without preemptions (thorough: one)
 }
 
 type result struct {
@@ -244,6 +245,43 @@ func main() {
 	for n := 0; n <= maxN; n++ {
 		gen(n, nil)
 	}
+	// larger batches: 5 and 6 (thorough: 9) recipients with four outcome patterns each
+	bigSizes := []int{5, 6}
+	if thorough {
+		bigSizes = []int{5, 6, 9}
+	}
+	for _, n := range bigSizes {
+		var rec []string
+		for i := 0; i < n; i++ {
+			rec = append(rec, fmt.Sprintf("https://big%d.example/in", i))
+		}
+		for pi, pat := range []func(i int) outcome{
+			func(i int) outcome { return outcomes[3] },
+			func(i int) outcome {
+				if i == n-1 {
+					return outcomes[0]
+				}
+				return outcomes[3]
+			},
+			func(i int) outcome {
+				if i == n-1 {
+					return outcomes[4]
+				}
+				return outcomes[0]
+			},
+			func(i int) outcome {
+				if i%2 == 1 {
+					return outcomes[5]
+				}
+				return outcomes[1]
+			}} {
+			var outs []outcome
+			for i := 0; i < n; i++ {
+				outs = append(outs, pat(i))
+			}
+			scs = append(scs, scenario{name: fmt.Sprintf("batch n=%d pattern=%d", n, pi), batches: [][]string{rec}, outs: [][]outcome{outs}, big: true})
+		}
+	}
 	// concurrent use of one transport value
 	scs = append(scs,
 		scenario{name: "two batches + dereference", batches: [][]string{{urls[0], urls[1]}, {urls[1]}}, outs: [][]outcome{{outcomes[0], outcomes[3]}, {outcomes[4]}}, deref: true},
@@ -284,6 +322,12 @@ func main() {
 		nThreads += sc.derefs + len(sc.singles)
 		if nThreads >= 5 {
 			b = bound - 1 // many threads: one preemption less
+		}
+		if sc.big {
+			b = 0 // six or more threads: the non-preemptive schedules only (every order in which threads are picked when one blocks or ends)
+			if thorough {
+				b = 1
+			}
 		}
 		e.Budget = [3]int{b, 0, -1} // every choice among simultaneously ready select cases
 		finals := map[string]bool{}
